@@ -21,6 +21,7 @@ for d in seeded/*-$R/; do
     C01-m7) id="C01 C07";;
     C12-m7) id="C12 C15";;
     C16-m7) id="C16 C15";;
+    C09-m7) id="C09 C16";;
     C09-m5) continue;;
   esac
   python3 lib/mutants.py run $n $id 2>&1 | grep -v KNOWN | cut -c1-240 >> $OUT.tmp
